@@ -61,6 +61,18 @@ class Eps(Beta, Alpha):
     pass
 class Zeta(Beta, Gamma):
     pass
+class Theta(object):
+    def load(self):
+        try:
+            self.mode = 1
+        except ValueError:
+            self.mode = 2
+        except KeyError:
+            self.mode = 3
+        else:
+            self.mode = 4
+        finally:
+            self.last = 5
 Config = 1
 config = 2
 Handler = 3
@@ -95,6 +107,8 @@ Eps().state
 Zeta.shared
 Zeta().run
 Zeta().state
+Theta().mode
+Theta().last
 '''
 USER = '''from cond import pick, codec, last
 import cond
@@ -106,9 +120,13 @@ cond.last
 '''
 
 
-def run_proc(requests, hashseed, prealloc, sources):
+# a project module named like a standard-library module that half of the processes have imported before the first request
+SHADOW = 'def project_marker():\n    return 1\nPROJECT_CONST = 2\n'
+
+
+def run_proc(requests, hashseed, prealloc, sources, preimport=()):
     p = core.run_repo_python(['-m', 'vlib.drivers.c17_worker'],
-                             inp=json.dumps({'requests': requests, 'prealloc': prealloc, 'sources': sources}).encode(),
+                             inp=json.dumps({'requests': requests, 'prealloc': prealloc, 'sources': sources, 'preimport': list(preimport)}).encode(),
                              env={'PYTHONHASHSEED': str(hashseed)}, timeout=3000)
     if p.returncode != 0:
         raise core.MachineryFailure('c17 worker failed: %s' % p.stderr.decode(errors='replace')[-2000:])
@@ -176,7 +194,7 @@ def run(tier, replay=None):
             open(mfile, 'w').write(MULTI)
             mlines = MULTI.split('\n')
             for i, line in enumerate(mlines, 1):
-                if line in ('obj.run', 'obj.shared', 'obj.state', 'worker.run', 'worker.state') or line.startswith(('Delta', 'Eps', 'Zeta')) and '.' in line and not line.startswith('class'):
+                if line in ('obj.run', 'obj.shared', 'obj.state', 'worker.run', 'worker.state') or line.startswith(('Delta', 'Eps', 'Zeta', 'Theta')) and '.' in line and not line.startswith('class'):
                     requests.append({'id': 'm-loc%d' % i, 'kind': 'location', 'source': MULTI, 'filename': mfile, 'pos': [i, len(line) - 1]})
             nl = len(mlines)          # MULTI ends with a newline: the appended line is line number nl
             for k, tail in enumerate(('obj.x', 'worker.x', 'conf', 'hand')):
@@ -193,6 +211,10 @@ def run(tier, replay=None):
             requests.append({'id': 'm-lint', 'kind': 'lint', 'source': MULTI, 'filename': mfile, 'pos': [0, 0]})
             cfile = os.path.join(projdir, 'cond.py')
             requests.append({'id': 'p-alts', 'kind': 'alts', 'source': COND, 'filename': cfile, 'pos': [0, 0]})
+            open(os.path.join(projdir, 'colorsys.py'), 'w').write(SHADOW)
+            for k, (text, pos) in enumerate((('import colorsys\ncolorsys.\n', [2, 9]), ('import colorsys\ncolorsys.project_marker\n', [2, 15]),
+                                            ('from colorsys import \n', [1, 21]))):
+                requests.append({'id': 'p-shadow%d' % k, 'kind': 'location' if k == 1 else 'assist', 'source': text, 'filename': ufile, 'pos': pos})
             # module-name completion before and after a request that looks inside builtin modules no interpreter loads at start-up
             for k, (text, pos) in enumerate((('import _sy\n', [1, 10]), ('import faul\n', [1, 11]), ('import _symtable, faulthandler\n_symtable.\n', [2, 10]),
                                             ('import faulthandler\nfaulthandler.dump\n', [2, 17]), ('from _sy', [1, 8]))):
@@ -216,7 +238,7 @@ def run(tier, replay=None):
         configs = [(rng.randrange(1, 2 ** 31), rng.choice([0, 10, 333, 1000, 7777, 50000, 200000])) for _ in range(nproc)]
         configs[0] = (0, 0)
         with ThreadPoolExecutor(max_workers=min(core.NCPU, nproc)) as ex:
-            outs = list(ex.map(lambda c: run_proc(requests, c[0], c[1], sources), configs))
+            outs = list(ex.map(lambda ic: run_proc(requests, ic[1][0], ic[1][1], sources, ['colorsys'] if ic[0] % 2 else []), enumerate(configs)))
         cases = []
         byid = {}
         for q in requests:
